@@ -66,8 +66,32 @@ func cArgFor(typ string) (expr string, ok bool) {
 		return "wuffs_base__make_slice_u8(bufs[rndn(NBUF)], (size_t)rndn(BUFLEN + 1))", true
 	case "base.io_reader":
 		return "mk_reader()", true
+	case "ptr base.pixel_buffer":
+		return "mk_pb()", true
 	}
 	return "", false
+}
+
+func cTypeFor(typ string) string {
+	switch typ {
+	case "base.u8":
+		return "uint8_t"
+	case "base.u16":
+		return "uint16_t"
+	case "base.u32":
+		return "uint32_t"
+	case "base.u64":
+		return "uint64_t"
+	case "base.bool":
+		return "bool"
+	case "slice base.u8", "roslice base.u8":
+		return "wuffs_base__slice_u8"
+	case "base.io_reader":
+		return "wuffs_base__io_buffer*"
+	case "ptr base.pixel_buffer":
+		return "wuffs_base__pixel_buffer*"
+	}
+	return "int"
 }
 
 // genPkgDriver: a driver TU that #includes the generated package C (so that
@@ -76,7 +100,7 @@ func cArgFor(typ string) (expr string, ok bool) {
 func genPkgDriver(s *pkgSum, snapshotPath, pkgCPath string, seed uint64, steps int) (string, int) {
 	var b strings.Builder
 	w := func(f string, a ...interface{}) { fmt.Fprintf(&b, f, a...) }
-	w("#define WUFFS_IMPLEMENTATION\n#define WUFFS_CONFIG__MODULES\n#define WUFFS_CONFIG__MODULE__BASE\n#define WUFFS_CONFIG__MODULE__%s\n", strings.ToUpper(s.Name))
+	w("#define WUFFS_IMPLEMENTATION\n#define WUFFS_CONFIG__MODULES\n#define WUFFS_CONFIG__MODULE__BASE__CORE\n#define WUFFS_CONFIG__MODULE__BASE__INTERFACES\n#define WUFFS_CONFIG__MODULE__%s\n", strings.ToUpper(s.Name))
 	w("#include \"%s\"\n#include \"%s\"\n", snapshotPath, pkgCPath)
 	b.WriteString(driverPrelude)
 	w(`
@@ -91,6 +115,16 @@ static wuffs_base__io_buffer* mk_reader(void) {
   iob.meta.ri = (size_t)rndn(iob.meta.wi + 1);
   iob.meta.pos = 0; iob.meta.closed = (bool)(rnd() & 1);
   return &iob;
+}
+static uint8_t pixmem[1024 + 64];
+static wuffs_base__pixel_buffer pbuf;
+static wuffs_base__pixel_buffer* mk_pb(void) {
+  wuffs_base__pixel_config cfg;
+  memset(&cfg, 0, sizeof(cfg));
+  wuffs_base__pixel_config__set(&cfg, WUFFS_BASE__PIXEL_FORMAT__INDEXED__BGRA_BINARY, WUFFS_BASE__PIXEL_SUBSAMPLING__NONE, 4, 4);
+  wuffs_base__status s = wuffs_base__pixel_buffer__set_from_slice(&pbuf, &cfg, wuffs_base__make_slice_u8(pixmem, sizeof(pixmem)));
+  if (s.repr) { printf("FATAL pixel buffer: %s\n", s.repr); exit(3); }
+  return &pbuf;
 }
 `)
 	skipped := 0
@@ -122,24 +156,30 @@ static wuffs_base__io_buffer* mk_reader(void) {
 				impures = append(impures, f)
 			}
 		}
-		call := func(f funcSum, cname string) string {
+		// call(): arguments are evaluated BEFORE the snapshot (building an
+		// io_buffer / pixel_buffer argument writes to watched memory).
+		call := func(f funcSum, cname string, after string) string {
+			var pre strings.Builder
 			args := []string{"o"}
-			for _, a := range f.Args {
+			for i, a := range f.Args {
 				e, _ := cArgFor(a.Type)
-				args = append(args, e)
+				fmt.Fprintf(&pre, "%s a%d_ = %s; ", cTypeFor(a.Type), i, e)
+				args = append(args, fmt.Sprintf("a%d_", i))
 			}
 			c := fmt.Sprintf("%s(%s)", cname, strings.Join(args, ", "))
 			if f.Effect == "coro" || f.Out == "base.status" {
-				return "{ wuffs_base__status st_ = " + c + "; (void)st_; }"
+				c = "wuffs_base__status st_ = " + c + "; (void)st_;"
+			} else {
+				c = "(void)" + c + ";"
 			}
-			return "(void)" + c + ";"
+			return "{ " + pre.String() + "snap(); " + c + " " + after + " }"
 		}
 		w("\nstatic void test_%s(void) {\n", st.Name)
 		w("  %s* o = (%s*)malloc(sizeof(%s));\n", T, T, T)
 		w("  memset(o, 0xA5, sizeof(%s));\n", T)
 		w("  wuffs_base__status is = %s__initialize(o, sizeof(%s), WUFFS_VERSION, (rnd() & 1) ? WUFFS_INITIALIZE__LEAVE_INTERNAL_BUFFERS_UNINITIALIZED : 0);\n", T, T)
 		w("  if (is.repr) { printf(\"FATAL initialize %s: %%s\\n\", is.repr); exit(3); }\n", st.Name)
-		w("  watch_reset(); watch(o, sizeof(%s)); watch(bufs, sizeof(bufs)); watch(iodata, sizeof(iodata)); watch(&iob, sizeof(iob));\n", T)
+		w("  watch_reset(); watch(o, sizeof(%s)); watch(bufs, sizeof(bufs)); watch(iodata, sizeof(iodata)); watch(&iob, sizeof(iob)); (void)mk_reader(); (void)mk_pb(); watch(pixmem, sizeof(pixmem)); watch(&pbuf, sizeof(pbuf));\n", T)
 		np, ni := len(pures), len(impures)
 		// choosy functions have two C entry points
 		type ent struct {
@@ -166,12 +206,12 @@ static wuffs_base__io_buffer* mk_reader(void) {
 		if len(ie) > 0 {
 			w("    switch (rndn(%d)) {\n", len(ie)+1)
 			for i, e := range ie {
-				w("      case %d: snap(); %s ic[%d]++; if (differs()) ich[%d]++; break;\n", i, call(e.f, e.cname), i, i)
+				w("      case %d: %s break;\n", i, call(e.f, e.cname, fmt.Sprintf("ic[%d]++; if (differs()) ich[%d]++;", i, i)))
 			}
 			w("      default: break;\n    }\n")
 		}
 		for i, e := range pe {
-			w("    snap(); %s pc[%d]++; if (differs()) pd[%d]++;\n", call(e.f, e.cname), i, i)
+			w("    %s\n", call(e.f, e.cname, fmt.Sprintf("pc[%d]++; if (differs()) pd[%d]++;", i, i)))
 		}
 		w("  }\n")
 		for i, e := range pe {
@@ -402,8 +442,8 @@ int main(int argc, char** argv) {
   if (argc != %d) { printf("FATAL argc=%%d\n", argc); return 3; }
   rng_s = strtoull(argv[1], NULL, 10);
   g_dstlen = 1 << 16; g_dst = (uint8_t*)calloc(g_dstlen, 1);
-  g_worklen = 1 << 22; g_work = (uint8_t*)calloc(g_worklen, 1);
-  g_pixlen = 1 << 22; g_pix = (uint8_t*)calloc(g_pixlen, 1);
+  g_worklen = 1 << 20; g_work = (uint8_t*)calloc(g_worklen, 1);
+  g_pixlen = 1 << 20; g_pix = (uint8_t*)calloc(g_pixlen, 1);
   g_toklen = 256; g_tok = (wuffs_base__token*)calloc(g_toklen, sizeof(wuffs_base__token));
 `, len(structs)+2)
 	for si := range structs {
